@@ -188,6 +188,33 @@ func makeInputs(r *rand.Rand, dir string, ntax int) *cmdInputs {
 	}
 	in.files["annot.txt"] = strings.Join(ann, "\n") + "\n"
 	in.files["brids.txt"] = "3\n5\n"
+	// tips named 1..n (the Nexus translate table then maps "1"->"0", "2"->"1", ...: new names overlap old names)
+	tn := mk(3, 0.1, false)
+	for j, tp := range modelTips(tn) {
+		tp.Name = fmt.Sprint(j + 1)
+	}
+	tn2 := mk(3, 0, false)
+	pp := r.Perm(ntax)
+	for j, tp := range modelTips(tn2) {
+		tp.Name = fmt.Sprint(pp[j] + 1)
+	}
+	in.files["tnum.nw"] = tn.Newick() + "\n" + tn2.Newick() + "\n"
+	// a rename map that is a chain: every new name is the old name of the next entry
+	var chain []string
+	sortedNames := append([]string(nil), names...)
+	sort.Strings(sortedNames)
+	for i, n := range sortedNames {
+		nx := "chain_end"
+		if i+1 < len(sortedNames) {
+			nx = sortedNames[i+1]
+		}
+		chain = append(chain, n+"\t"+nx)
+	}
+	in.files["chain.txt"] = strings.Join(chain, "\n") + "\n"
+	// Newick content under file names that suggest another format (the format option, not the name, decides)
+	for _, ext := range []string{"nex", "nexus", "xml", "phyloxml", "json", "txt"} {
+		in.files["tsnewick."+ext] = in.files["ts.nw"]
+	}
 	sort.Strings(names)
 	return in
 }
@@ -264,6 +291,8 @@ var cmdTable = []cmdTmpl{
 	{Name: "rename map", Args: []string{"rename", "-i", "{t.nw}", "-m", "{map.txt}"}},
 	{Name: "rename auto", Args: []string{"rename", "-i", "{t.nw}", "--auto", "-m", "{out:automap.txt}"}},
 	{Name: "rename regexp", Args: []string{"rename", "-i", "{t.nw}", "-e", "sp(\\d+)_", "-b", "taxon$1-", "-m", "{out:remap.txt}"}},
+	{Name: "rename chain map", Args: []string{"rename", "-i", "{t.nw}", "-m", "{chain.txt}"}},
+	{Name: "reformat nexus translate numeric tips", Args: []string{"reformat", "nexus", "-i", "{tnum.nw}", "--translate"}},
 	{Name: "reformat newick", Args: []string{"reformat", "newick", "-i", "{ts.nw}"}},
 	{Name: "reformat nexus", Args: []string{"reformat", "nexus", "-i", "{ts.nw}"}},
 	{Name: "reformat nexus translate", Args: []string{"reformat", "nexus", "-i", "{ts.nw}", "--translate"}},
@@ -290,6 +319,12 @@ var cmdTable = []cmdTmpl{
 	{Name: "draw svg", Args: []string{"draw", "svg", "-i", "{t.nw}"}},
 	{Name: "draw cyjs", Args: []string{"draw", "cyjs", "-i", "{t.nw}"}},
 	{Name: "repopulate", Args: []string{"repopulate", "-i", "{t.nw}", "-g", "{groups.txt}"}},
+	{Name: "stats on .nex name", Args: []string{"stats", "-i", "{tsnewick.nex}"}},
+	{Name: "stats on .xml name", Args: []string{"stats", "-i", "{tsnewick.xml}"}},
+	{Name: "reformat newick on .nexus name", Args: []string{"reformat", "newick", "-i", "{tsnewick.nexus}"}},
+	{Name: "reformat newick on .phyloxml name", Args: []string{"reformat", "newick", "-i", "{tsnewick.phyloxml}"}},
+	{Name: "compute consensus on .json name", Args: []string{"compute", "consensus", "-i", "{tsnewick.json}"}},
+	{Name: "sample on .txt name", Args: []string{"sample", "-i", "{tsnewick.txt}", "-n", "3"}, Seeded: true},
 	{Name: "stdin input", Args: []string{"stats", "tips"}, Stdin: "t.nw"},
 }
 
